@@ -125,13 +125,21 @@ impl<'a> Choice<'a> {
     /// all-ones patterns.
     pub fn val(&mut self, bits: u32) -> u64 {
         let mask = if bits >= 64 { u64::MAX } else { (1u64 << bits) - 1 };
-        match self.below(8) {
+        match self.below(9) {
             0 | 1 => self.below(17),
             2 | 3 => *self.pick(BOUNDARY) & mask,
             4 => self.u8() as u64,
             5 => self.u16() as u64 & mask,
             6 => self.u32() as u64 & mask,
-            _ => self.u64() & mask,
+            7 => self.u64() & mask,
+            // a small value above a 2^32 / 2^16 multiple: invisible to code that is right for small values
+            // and for all-ones patterns, but not to code that truncates to a narrower integer
+            _ => {
+                let small = self.below(70);
+                let hi = 1 + self.below(6);
+                let sh = *self.pick(&[32u32, 32, 32, 16, 48, 8]);
+                ((hi << sh) | small) & mask
+            }
         }
     }
     /// raw value of `bits` width, uniformly distributed
